@@ -450,6 +450,13 @@ def _check_counter_writer(rep, facts, a, fn, l, writer, base_idx, seq_idx, same_
             lb_, lf_ = addr_fields(a_[2][1])
             if (lb_ == ('param', base_idx) or lb_ == ('local', l)) and same_ty:
                 slices = [('slice', a_, None)]
+    if len(slices) == 1 and slices[0][1] is not None and slices[0][2] is not None and slices[0][2][0] == 'bin' and slices[0][2][1] == 'Add' and same_ty:
+        # buf[a..][..n] composed by mk_slice to buf[a..a + n]; with a = len - n (len of the base nonce or of the buffer: same type)
+        a_, h_ = slices[0][1], slices[0][2]
+        if strip_sites_(h_[2]) == strip_sites_(a_) and a_[0] == 'bin' and a_[1] == 'Sub' and strip_sites_(a_[3]) == strip_sites_(h_[3]) and a_[2][0] == 'len':
+            lb_, lf_ = addr_fields(a_[2][1])
+            if lb_ == ('param', base_idx) or lb_ == ('local', l):
+                slices = [('slice', a_, None)]
     if len(slices) == 1 and slices[0][2] is not None and slices[0][2][0] == 'len' and same_ty:
         # buf[a..base_nonce.0.len()]: the base nonce and the buffer have the same fixed-size type, so that is buf[a..]
         hb_, _hf = addr_fields(slices[0][2][1])
